@@ -910,7 +910,7 @@ func (e *Engine) convert(st *State, ins *ssa.Convert) Value {
 		return e.wrap(to, v.(Term))
 	case isInteger(from) && isFloat(to):
 		x := v.(Term)
-		return T("(i2f "+x.S+")", SF64)
+		return i2fTerm(x)
 	case isFloat(from) && isFloat(to):
 		return v
 	case isFloat(from) && isInteger(to):
